@@ -79,7 +79,14 @@ func runElps(args []string, stdout io.Writer) error {
 
 	env := lisp.NewEnv(nil)
 	env.Runtime.Reader = parser.NewReader()
-	env.Runtime.Library = &lisp.FSLibrary{FS: os.DirFS(rootDir)}
+	// os.DirFS follows symbolic links out of rootDir; os.Root refuses any
+	// path (including one reached through a link) that leaves the directory.
+	root, err := os.OpenRoot(rootDir)
+	if err != nil {
+		return fmt.Errorf("cannot open root directory: %w", err)
+	}
+	defer root.Close() //nolint:errcheck // read-only handle
+	env.Runtime.Library = &lisp.FSLibrary{FS: root.FS()}
 	for _, rc := range []*lisp.LVal{
 		lisp.InitializeUserEnv(env),
 		lisplib.LoadLibrary(env),
